@@ -933,7 +933,7 @@ SPECS["C18"] = CheckSpec(
     "C18", c18_jobs,
     rule="with a user allocator installed through lrtr_set_alloc_functions (every block tagged with a header): (fault) "
          "5 prefix-table seed states x 12 operations, 7 key-table sizes (0,1,31,32,33,64,65: below / at / beyond the "
-         "resize steps) x 7 operations, and 10 cache responses through the real rtr_sync (deltas and reloads that succeed, "
+         "resize steps) x 7 operations, and 11 cache responses through the real rtr_sync (deltas and reloads that succeed, "
          "fail and roll back - at a router key, at an IPv4 PDU after two withdrawals, at an IPv6 PDU across "
          "families -, three of them with 3 x 101 records so that the temporary PDU stores grow); for each the number n of "
          "allocations is measured and the case is re-run n times with the k-th allocation failing, k = 1..n; a call that "
